@@ -91,6 +91,10 @@ def method(pe, recv, name, args, kwargs):
     if name == "sub" and len(args) >= 2 and all(isinstance(a, str)
                                                 for a in args[:2]):
       return re.sub(recv.pattern, args[0], args[1])
+    if name in ("findall", "split") and args and isinstance(args[0], str):
+      # (standard-library semantics on constant strings; groups give tuples)
+      return [tuple(m) if isinstance(m, tuple) else m
+              for m in getattr(re.compile(recv.pattern), name)(args[0])]
     pe.err("compiled regex method %s is not modelled" % name)
   if isinstance(recv, GlobalsDict):
     if name == "get":
